@@ -126,7 +126,7 @@ struct Pops {
     probes: Vec<Probe>,
 }
 fn pops(values: &[i64]) -> Pops {
-    Pops { plain: mk_pop(values), matrix: mk_pop_matrix(&lex_rows(values)), probes: values.iter().enumerate().map(|(id, v)| Probe { value: *v, id }).collect() }
+    Pops { plain: mk_pop_matrix(&values.iter().enumerate().map(|(i, v)| if i % 3 == 0 { vec![*v - 1, 1] } else { vec![*v] }).collect::<Vec<_>>()), matrix: mk_pop_matrix(&lex_rows(values)), probes: values.iter().enumerate().map(|(id, v)| Probe { value: *v, id }).collect() }
 }
 /// tournament on the recording individuals: (result, distinct individuals compared, was the winner among them)
 fn run_probe_tournament(k: usize, p: &Pops, env: &mut mcx::Env, alpha: Alphabet) -> (SelObs, usize, bool) {
